@@ -235,7 +235,22 @@ XATTR = ['class="footnote"', 'class="toc"', 'class="admonition note"', 'id="fn:1
          '1a="b"', 'a=', '=b', 'a="', "a='b", 'data-x', 'markdown="1"', 'markdown="span"', 'style="x:y"', 'hidden', 'a.b="c"', 'é="é"', '&amp;="1"', '/']
 
 
+VOIDS = ['hr', 'hr', 'hr', 'br', 'img', 'input', 'div', 'p', 'span']
+
+
+def md_void(rng):
+    """a void or self-closing element carrying a markdown attribute and further attributes (valueless ones included), in the three
+    spellings `<hr …>`, `<hr … />`, `<hr …/>`: the start-tag, start-end-tag and block/inline paths of the md_in_html extractor each
+    rebuild the element from the attribute list"""
+    tag = rng.choice(VOIDS)
+    attrs = [rng.choice(MDATTR)] + [rng.choice(XATTR + ['hidden', 'noshade', 'disabled', 'data-x']) for _ in range(rng.randint(0, 2))]
+    rng.shuffle(attrs)
+    return '<%s %s%s' % (tag, ' '.join(attrs), rng.choice([' />', ' />', '/>', '>']))
+
+
 def md_container(rng, depth=0):
+    if depth == 0 and rng.random() < 0.12:
+        return md_void(rng)
     tag = rng.choice(CONTAINERS); attr = rng.choice(MDATTR)
     if rng.random() < 0.3:
         extra = ' '.join(rng.choice(XATTR) for _ in range(rng.randint(1, 2)))
@@ -247,7 +262,8 @@ def md_container(rng, depth=0):
         items += [raw, md]
     for _ in range(rng.randint(1, 5)):
         r = rng.random()
-        if r < 0.42: items.append(rng.choice(RAW_BLOCKS))
+        if r < 0.06: items.append(md_void(rng))
+        elif r < 0.42: items.append(rng.choice(RAW_BLOCKS))
         elif r < 0.88 or depth >= 2: items.append(rng.choice(MD_BLOCKS))
         else: items.append(md_container(rng, depth + 1))
     body = ''
